@@ -164,7 +164,13 @@ func makeMethodArshaler(fncs *arshaler, t reflect.Type) *arshaler {
 				return prevMarshal(enc, va, mo)
 			}
 			appender, _ := reflect.TypeAssert[encoding.TextAppender](va.Addr())
-			if err := export.Encoder(enc).AppendRaw('"', false, appender.AppendText); err != nil {
+			if err := export.Encoder(enc).AppendRaw('"', false, func(b []byte) ([]byte, error) {
+				// Only expose the unused capacity of the buffer so that an
+				// AppendText method that does not return an extension of
+				// its argument cannot drop or alter what is already written.
+				b2, err := appender.AppendText(b[len(b):])
+				return append(b, b2...), err
+			}); err != nil {
 				err = wrapErrUnsupported(err, "AppendText method")
 				if mo.Flags.Get(jsonflags.ReportErrorsWithLegacySemantics) {
 					return internal.NewMarshalerError(va.Addr().Interface(), err, "AppendText") // unlike unmarshal, always wrapped
